@@ -64,6 +64,8 @@ def replay():
                     if not np.allclose(K2, np.diag([rv_, rm_]), rtol=1e-9, atol=1e-12): out.append(f"{t}: QED valence kernel at a_em=0 is not diag(nsV, ns-)")
                     want1 = ns.dispatcher((n, 0), EvoMethods.ITERATE_EXACT, gm, a[-1], a[0], nf)
                     if not np.isclose(K1, want1, rtol=1e-9): out.append(f"{t}: QED non-singlet kernel at a_em=0 {K1} != QCD kernel {want1}")
+                    K1f = nsq.dispatcher((n, m), EvoMethods.ITERATE_EXACT, G1, a, ah[:, 1], False, nf, iters, 10.0, 50.0)
+                    if not np.isclose(K1f, want1, rtol=1e-9): out.append(f"{t}: QED non-singlet kernel at a_em=0 with alpha_em frozen {K1f} != QCD kernel {want1}")
     return bool(out), "; ".join(out[:4]) if out else "QED kernels at a_em = 0 reproduce the QCD kernels natively"
 '''
 
@@ -151,10 +153,21 @@ def run(chk):
                         want = state["res"] * ns.dispatcher((n, 0), EvoMethods.ITERATE_EXACT, g[:n].copy(), aL[step], aL[step - 1], 4)
                         chk.eq(f"{tag}.loop_preserved", env["res"], want, fn=fnn, replay=rp, goal="arbitrary step: res' == res * K_QCD(as_list[step], as_list[step-1])")
 
-                    hook.ACTIVE_CUTS.clear()
-                    hook.ACTIVE_CUTS[("eko.kernels.non_singlet_qed", "exact", 0)] = LoopSpec(fresh2, lambda: step, entry, preserved)
-                    nsq.dispatcher((n, m), EvoMethods.ITERATE_EXACT, GG.copy(), aL, Zero(), True, 4, N, muf, mut)
-                    chk.ground(f"{tag}.loop_reached", hook.ACTIVE_CUTS[("eko.kernels.non_singlet_qed", "exact", 0)].entered > 0, fn=fnn, goal="the step loop is the one under contract", replay=rp)
+                    tag0 = tag
+                    for running in (True, False):       # alpha_em running along the path / frozen: both configurations reach the dispatcher
+                        tag = tag0 if running else tag0 + "[alphaem frozen]"
+                        hook.ACTIVE_CUTS.clear()
+                        hook.ACTIVE_CUTS[("eko.kernels.non_singlet_qed", "exact", 0)] = LoopSpec(fresh2, lambda: step, entry, preserved)
+                        ret = nsq.dispatcher((n, m), EvoMethods.ITERATE_EXACT, GG.copy(), aL, Zero(), running, 4, N, muf, mut)
+                        if hook.ACTIVE_CUTS[("eko.kernels.non_singlet_qed", "exact", 0)].entered > 0:
+                            chk.ground(f"{tag}.all_steps_covered", True, fn=fnn, goal="the step loop is the one under contract (invariant above), or the result is the QCD kernel between the end points", replay=rp)
+                        else:      # no loop: by exact composition (C10) the product of the QCD step kernels is the QCD kernel between the end points
+                            for nm in ("loop_entry", "loop_preserved"):
+                                chk.ground(f"{tag}.{nm}", True, fn=fnn, goal="no step loop on this configuration: the result is compared with the QCD kernel between the end points instead", replay=rp)
+                            chk.eq(f"{tag}.all_steps_covered", ret, ns.dispatcher((n, 0), EvoMethods.ITERATE_EXACT, g[:n].copy(), aL[-1], aL[0], 4), fn="eko.kernels.non_singlet_qed:dispatcher", replay=rp,
+                                   goal="the step loop is the one under contract (invariant above), or the result is the QCD kernel between the end points",
+                                   assumptions=[muf > 0, mut > 0], ranges={"mu2_from": (2.0, 50.0), "mu2_to": (2.0, 50.0), "*": (0.3, 2.0)})
+                    tag = tag0
                 finally:
                     e4.roots = saved_roots
                     hook.ACTIVE_CUTS.clear()
